@@ -199,3 +199,26 @@ impl<const K: usize> rand::RngCore for TapeRng<K> {
         }
     }
 }
+
+/// contents comparison without slice equality (which compiles to memcmp and needs byte-length unwinding):
+/// `m` is bottom-first
+pub fn stack_is<T: Clone + PartialEq>(s: &push::push_vm::stack::Stack<T>, m: &[T]) -> bool {
+    if s.size() != m.len() {
+        return false;
+    }
+    let mut c = s.clone();
+    let mut k = m.len();
+    let mut ok = true;
+    while k > 0 {
+        k -= 1;
+        match c.pop() {
+            Ok(v) => {
+                if v != m[k] {
+                    ok = false;
+                }
+            }
+            Err(_) => ok = false,
+        }
+    }
+    ok
+}
